@@ -2,9 +2,11 @@ package simzcn
 
 import (
 	"fmt"
+	"strings"
 	"testing"
 
 	"0chain.net/chaincore/transaction"
+	"0chain.net/smartcontract/zcnsc"
 	"verifharness/sim"
 	"verifharness/vkit"
 )
@@ -45,7 +47,8 @@ func TestSmokeBridge(t *testing.T) {
 		t.Fatalf("VERIF-HARNESS-ERROR boot: %v", err)
 	}
 	h := s.NewHistory(s.Genesis)
-	br, err := SetupBridge(h, 3)
+	// no stake (the contract needs none); min_stake_per_delegate 0 so that the empty pools earn the mint fee
+	br, err := SetupBridgeWith(h, 3, Options{Config: EarnWithoutStake})
 	if err != nil {
 		t.Fatalf("setup bridge: %v\n%v", err, h.Render(20))
 	}
@@ -57,9 +60,9 @@ func TestSmokeBridge(t *testing.T) {
 	if v.AuthorizerCount != 3 || v.Registered() != 3 {
 		t.Fatalf("authorizers: count=%d registered=%d", v.AuthorizerCount, v.Registered())
 	}
-	for _, a := range v.Authorizers {
-		if !a.Pool.Exists || a.Pool.TotalStake != uint64(10*ZCN) || len(a.Pool.Delegates) != 1 {
-			t.Fatalf("stake pool of %s: %+v", a.ID, a.Pool)
+	for i, a := range v.Authorizers {
+		if !a.Pool.Exists || a.Pool.DelegateWallet != br.Auths[i].Delegate.ID || a.PublicKey != br.Auths[i].Node.PublicKey || a.Stored.Bare {
+			t.Fatalf("authorizer %d: %+v", i, a)
 		}
 	}
 	h.NextBlock(1, 2)
@@ -69,10 +72,6 @@ func TestSmokeBridge(t *testing.T) {
 	amount := 5 * ZCN
 	bal0 := sim.ViewOf(h.Cur.B).Balance(user.ID)
 	sc0 := sim.ViewOf(h.Cur.B).Balance(sim.ZcnSC)
-	p := NewMintPayload("0xeth-1", amount, 1, user.ID)
-	if p.GetStringToSign() != MintMessage("0xeth-1", amount, 1, user.ID) {
-		t.Fatal("mint message differs from the contract's")
-	}
 	notOK(t, h, "mint with 1 of 3 signatures", br.MintSigned(user, "0xeth-1", amount, 1, 0))
 	must(t, h, "mint with 2 of 3 signatures", br.MintSigned(user, "0xeth-1", amount, 1, 0, 2))
 	bal1 := sim.ViewOf(h.Cur.B).Balance(user.ID)
@@ -90,7 +89,12 @@ func TestSmokeBridge(t *testing.T) {
 		t.Fatal("nonce 2 reported as minted")
 	}
 	notOK(t, h, "mint the same nonce again", br.MintSigned(user, "0xeth-1", amount, 1, 0, 1, 2))
-	// rewards of the fee share are in exactly one signer's pool
+	notOK(t, h, "mint submitted by another client", br.Mint(s.Clients[4], func() *zcnsc.MintPayload {
+		p := NewMintPayload("0xeth-2", amount, 2, user.ID)
+		p.Signatures = br.Sigs(p, SigValid, 0, 1, 2)
+		return p
+	}()))
+	// the fee share is in exactly one signer's pool
 	v, _ = br.View()
 	var rewards uint64
 	for _, a := range v.Authorizers {
@@ -98,23 +102,6 @@ func TestSmokeBridge(t *testing.T) {
 	}
 	if rewards != share {
 		t.Fatalf("pool rewards %d, want %d\n%v", rewards, share, v)
-	}
-
-	// --- what the contract does with signatures that are not genuine (printed, not asserted: see report)
-	for i, k := range SigKinds {
-		if k == SigValid {
-			continue
-		}
-		q := NewMintPayload(fmt.Sprintf("0xeth-k%d", i), amount, int64(100+i), user.ID)
-		q.Signatures = append(br.Sigs(q, SigValid, 0), Sig(br.Auths[1], k, q))
-		o, _ := h.Do(br.Mint(user, q))
-		res := "ok (ACCEPTED)"
-		if o.Rejected {
-			res = "rejected: " + o.Err.Error()
-		} else if o.Failed {
-			res = "failed: " + o.Output
-		}
-		fmt.Printf("mint 1 valid + 1 %-14s -> %.120s\n", k, res)
 	}
 	h.NextBlock(1, 2)
 
@@ -160,23 +147,105 @@ func TestSmokeBridge(t *testing.T) {
 		t.Fatalf("burn nonce %d err %v", n, err)
 	}
 
-	// --- extra stake by another client, unlock, delete
-	staker := s.Clients[1]
-	must(t, h, "add-to-delegate-pool", br.StakeLock(staker, br.Auths[1].ID(), 2*ZCN))
-	h.NextBlock(1, 2)
-	b0 := sim.ViewOf(h.Cur.B).Balance(staker.ID)
-	must(t, h, "delete-from-delegate-pool", br.StakeUnlock(staker, br.Auths[1].ID()))
-	if got := sim.ViewOf(h.Cur.B).Balance(staker.ID) - b0; got != uint64(2*ZCN) {
-		t.Fatalf("unlock returned %d", got)
-	}
+	// --- delete
 	must(t, h, "delete-authorizer", br.DeleteAuthorizer(br.Auths[2].Delegate, br.Auths[2].ID()))
 	v, _ = br.View()
 	fmt.Print(v)
 	if v.AuthorizerCount != 2 || v.Registered() != 2 || v.Authorizers[2].Registered || !v.Authorizers[2].Pool.Exists {
 		t.Fatalf("after delete: %v", v)
 	}
+	// 2 authorizers, percent 0.5 -> threshold 1
+	must(t, h, "mint with 1 of 2 signatures", br.MintSigned(user, "0xeth-3", amount, 3, 1))
 	h.NextBlock(1, 2)
-	fmt.Println(h.Render(0))
+	fmt.Println(strings.Join(h.Render(0), "\n"))
+}
+
+// TestObserveSignatures prints what the contract does with a mint that carries one valid signature and one that
+// is not genuine (threshold 2 of 3). Nothing is asserted about the outcome: deciding it is a check's job.
+func TestObserveSignatures(t *testing.T) {
+	s, err := sim.Boot(sim.Options{})
+	if err != nil {
+		t.Fatalf("VERIF-HARNESS-ERROR boot: %v", err)
+	}
+	h := s.NewHistory(s.Genesis)
+	br, err := SetupBridge(h, 3)
+	if err != nil {
+		t.Fatal(err)
+	}
+	user := s.Clients[0]
+	for i, k := range SigKinds {
+		q := NewMintPayload(fmt.Sprintf("0xeth-k%d", i), 5*ZCN, int64(100+i), user.ID)
+		q.Signatures = append(br.Sigs(q, SigValid, 0), Sig(br.Auths[1], k, q))
+		before := sim.ViewOf(h.Cur.B).Balance(user.ID)
+		o, _ := h.Do(br.Mint(user, q))
+		res := "ok"
+		if o.Rejected {
+			res = "rejected: " + o.Err.Error()
+		} else if o.Failed {
+			res = "failed: " + o.Output
+		}
+		fmt.Printf("mint 1 valid + 1 %-14s (genuine=%v) -> minted %d: %.100s\n", k, k.Genuine(), sim.ViewOf(h.Cur.B).Balance(user.ID)-before, res)
+	}
+}
+
+// TestObserveStake prints what staking does to an authorizer's stake pool. Only the acceptance of the lock
+// itself is asserted.
+func TestObserveStake(t *testing.T) {
+	s, err := sim.Boot(sim.Options{})
+	if err != nil {
+		t.Fatalf("VERIF-HARNESS-ERROR boot: %v", err)
+	}
+	h := s.NewHistory(s.Genesis)
+	br, err := SetupBridge(h, 2)
+	if err != nil {
+		t.Fatal(err)
+	}
+	a := br.Auths[0]
+	show := func(when string) {
+		av, err := AuthorizerOf(s, h.Cur.B, a.ID())
+		if err != nil {
+			t.Fatal(err)
+		}
+		fmt.Printf("%s:\n  contract reads: %+v\n  stored:         %+v\n", when, av.Pool, av.Stored)
+	}
+	show("after add-authorizer")
+	d0, c0 := sim.ViewOf(h.Cur.B).Balance(a.Delegate.ID), sim.ViewOf(h.Cur.B).Balance(sim.ZcnSC)
+	must(t, h, "add-to-delegate-pool (delegate)", br.StakeLock(a.Delegate, a.ID(), 10*ZCN))
+	d1, c1 := sim.ViewOf(h.Cur.B).Balance(a.Delegate.ID), sim.ViewOf(h.Cur.B).Balance(sim.ZcnSC)
+	if d0-d1 != uint64(10*ZCN) || c1-c0 != uint64(10*ZCN) {
+		t.Fatalf("lock moved delegate -%d contract +%d", d0-d1, c1-c0)
+	}
+	show("after the delegate wallet locked 10 ZCN")
+	h.NextBlock(1, 2)
+	for _, st := range []struct {
+		what string
+		txn  func() *transaction.Transaction // built when its turn comes: the nonce is read from state
+	}{
+		{"add-to-delegate-pool (client1)", func() *transaction.Transaction { return br.StakeLock(s.Clients[1], a.ID(), 2*ZCN) }},
+		{"delete-from-delegate-pool (delegate)", func() *transaction.Transaction { return br.StakeUnlock(a.Delegate, a.ID()) }},
+		{"update-authorizer-config (delegate)", func() *transaction.Transaction { return br.UpdateAuthorizerConfig(a.Delegate, a.ID(), 5) }},
+		{"mint signed by 0 only, twice", func() *transaction.Transaction {
+			p := NewMintPayload("0xeth-s", 5*ZCN, 1, s.Clients[0].ID)
+			p.Signatures = br.Sigs(p, SigValid, 0, 0)
+			return br.Mint(s.Clients[0], p)
+		}},
+		{"collect-rewards (delegate)", func() *transaction.Transaction { return br.CollectRewards(a.Delegate, a.ID()) }},
+		{"delete-authorizer (delegate)", func() *transaction.Transaction { return br.DeleteAuthorizer(a.Delegate, a.ID()) }},
+		{"delete-authorizer (owner)", func() *transaction.Transaction { return br.DeleteAuthorizer(br.Owner, a.ID()) }},
+	} {
+		o, _ := h.Do(st.txn())
+		res := "ok " + o.Output
+		if o.Rejected {
+			res = "rejected: " + o.Err.Error()
+		} else if o.Failed {
+			res = "failed: " + o.Output
+		}
+		fmt.Printf("%-38s -> %.150s\n", st.what, res)
+		if strings.HasPrefix(st.what, "mint") {
+			show("after the mint")
+		}
+	}
+	show("at the end")
 }
 
 func TestSmokeMultiSig(t *testing.T) {
@@ -240,6 +309,17 @@ func TestSmokeMultiSig(t *testing.T) {
 	if got := sim.ViewOf(h.Cur.B).Balance(owner.ID); got != w1 {
 		t.Fatalf("executed twice: %d -> %d", w1, got)
 	}
+	notOK(t, h, "vote by a non-signer", m.VoteRaw(h, funder, m.NewVote("p2", to.ID, amount, 0, true)))
+
+	// --- expiry: a proposal lives one week of block time
+	must(t, h, "vote signer 1 on p2", m.Vote(h, "p2", to.ID, 1*ZCN, 1, true))
+	h.NextBlock(1, ProposalLifetime)
+	p2, _ := m.ProposalAt(s, h.Cur.B, "p2")
+	fmt.Printf("p2 after a week: %+v\n", p2)
+	if !p2.Exists || !p2.Expired {
+		t.Fatalf("p2 not expired: %+v", p2)
+	}
+	notOK(t, h, "vote signer 2 on expired p2", m.Vote(h, "p2", to.ID, 1*ZCN, 2, true))
 	h.NextBlock(1, 2)
-	fmt.Println(h.Render(0))
+	fmt.Println(strings.Join(h.Render(0), "\n"))
 }
